@@ -505,6 +505,17 @@ def programs(draw, dynamic=None):
         stmts.append(["param", f"q{j}", anyv(draw(st.integers(1, 2)))])
     if nums:
         stmts.append(["param", "allnums", ["tup", [["v", n] for n in nums[-4:]]]])
+    if nums and draw(st.integers(0, 2)) == 0:
+        # a random value used on its own first and then as one option of a later choice
+        # (decoded before the choice is reached), next to an option that is new
+        v = ["v", draw(st.sampled_from(nums))]
+        fresh_opt = ["range", ["c", 5], ["c", 6]]
+        stmts.append(["param", "sh0", v])
+        if draw(st.booleans()):
+            stmts.append(["param", "sh1", ["uni", [v, fresh_opt]]])
+        else:
+            stmts.append(["param", "sh1", ["disc", [[v, 3], [fresh_opt, 1]]]])
+        stmts.append(["param", "sh2", ["range", ["c", 10], ["c", 11]]])
     if nums and draw(st.booleans()):
         # a requirement that always holds: the value it mentions is encoded even if nothing
         # else refers to it
